@@ -98,6 +98,28 @@ func (d *typeDictionary) typedefs() []*Typedef {
 	return tds
 }
 
+// nodes returns the set of nodes that have typedefs in the dictionary.
+func (d *typeDictionary) nodes() map[Node]bool {
+	defer d.mu.Unlock()
+	d.mu.Lock()
+	ns := make(map[Node]bool, len(d.dict))
+	for n := range d.dict {
+		ns[n] = true
+	}
+	return ns
+}
+
+// keepOnly removes the typedefs of every node that is not in keep.
+func (d *typeDictionary) keepOnly(keep map[Node]bool) {
+	defer d.mu.Unlock()
+	d.mu.Lock()
+	for n := range d.dict {
+		if !keep[n] {
+			delete(d.dict, n)
+		}
+	}
+}
+
 // addTypedefs is called from BuildAST after each Typedefer is defined.  There
 // are no error conditions in this process as it is simply used to build up the
 // typedef dictionary.
